@@ -5,7 +5,7 @@ from analysis import cfg
 from analysis.sym import sym, show_in, nosite, peel, core, walk, ret_values, args_of, guards_at, atoms_at, \
     variant_facts_at, cmp_facts_at, init_value, edge_guards
 from analysis.pat import match, Call, Cap, ANY, Pred, Const, has, chain_names
-from rules.common import closure_of, closures_in
+from rules.common import closure_of, closures_in, V, the_state_local, receiver_var
 
 B = 'data::loading::Batched'
 ITEM_TY = re.compile(r'(^|[<(, &])T($|[>), ])')
@@ -18,7 +18,26 @@ def _bodies(ctx):
 
 
 def _var(name):
-    return Pred(lambda t: t[0] == 'var' and t[1] == name)
+    """role based: `items` = the Vec<T> that batch_from fills, `batch_limit` = its BatchLimit accumulator"""
+    def f(t):
+        if not (isinstance(t, tuple) and t and t[0] == 'var'):
+            return False
+        ty = _TYPES.get(t[2], '')
+        if name == 'items':
+            return ty == 'std::vec::Vec<T>'
+        if name == 'batch_limit':
+            return ty.endswith('loading::BatchLimit')
+        return False
+    return Pred(f)
+
+
+_TYPES = {}
+
+
+def _remember_types(b):
+    _TYPES.clear()
+    for i, l in enumerate(b.locals):
+        _TYPES[i] = l['ty']
 
 
 @rule('C06', 'R-C06-1', 'T12 OWNERSHIP',
@@ -65,6 +84,7 @@ def _drop_flag_guard(b, t):
       'every Some(batch) is reached only with at least one item in it')
 def r2(ctx):
     bb, bf = _bodies(ctx)
+    _remember_types(bf)
     pushes = [t for t in bf.calls(r'Vec::push$') if match(sym(bf, t.args[0]), _var('items'))]
     if len(pushes) != 1:
         raise AnchorMissing('the single items.push(item) in batch_from (found %d)' % len(pushes))
@@ -100,6 +120,7 @@ def r2(ctx):
       'empty; the comparison is the strict `limit() > limit`; the remainder is exactly the rejected item')
 def r3(ctx):
     bb, bf = _bodies(ctx)
+    _remember_types(bf)
     pushes = [t for t in bf.calls(r'Vec::push$') if match(sym(bf, t.args[0]), _var('items'))]
     if len(pushes) != 1:
         raise AnchorMissing('items.push(item) in batch_from')
